@@ -55,6 +55,11 @@ def contain(xs, container):
         return np.array(xs)
     if container == "series":
         return pd.Series(list(xs), index=[f"i{k}" for k in range(len(xs))][::-1])
+    if container == "categorical":
+        # converted on its own: category list and integer codes belong to this sample only
+        return pd.Series(list(xs)).astype("category")
+    if container == "string_dtype":
+        return pd.Series([str(x) for x in xs], dtype="string")
     raise ValueError(container)
 
 
@@ -174,7 +179,7 @@ def build_table(case):
             elif col["type"] == "str":
                 vals.append(str(v))
             else:
-                vals.append(int(v))
+                vals.append(int(v) + col.get("base", 0))     # ids that differ only in their last digit(s)
         # a numeric column has ONE dtype across both tables of a two-table case
         allrows = list(case["rows"]) + list(case.get("rows2", [])) + list(case.get("rows1", []))
         if col["type"] == "int" and any(r[ci] is None for r in allrows):
@@ -256,6 +261,9 @@ CELL_STR = ["A", "B", "AB", "BC", "C", "ABC", "CAS", "CASS", "x y", "é", "Ab", 
 def table_case(draw, tier="quick"):
     ncol = draw(st.integers(1, 4))
     cols = [{"name": ["TRAV", "CDR3A", "f3", "f4"][i], "type": draw(st.sampled_from(["str", "str", "int"]))} for i in range(ncol)]
+    for c in cols:
+        if c["type"] == "int" and draw(st.booleans()):
+            c["base"] = draw(st.sampled_from([30000000, 10 ** 9, 2 ** 31, 2 ** 53 - 64, 10 ** 15]))
     nrows = draw(st.integers(2, 40))
     missing = draw(st.booleans())
     pool_size = draw(st.integers(1, 5))
@@ -335,7 +343,7 @@ def sample_case(draw, tier="quick"):
     n = draw(st.integers(2, 200))
     labels = draw(st.lists(st.integers(0, nvals), min_size=n, max_size=n))
     return {"labels": labels, "type": draw(st.sampled_from(["str", "int", "float"])),
-            "container": draw(st.sampled_from(["list", "tuple", "ndarray", "series"])), "salt": draw(st.integers(0, 100))}
+            "container": draw(st.sampled_from(["list", "tuple", "ndarray", "series", "categorical"])), "salt": draw(st.integers(0, 100))}
 
 
 @st.composite
@@ -350,7 +358,7 @@ def two_case(draw, tier="quick"):
         if draw(st.booleans()):
             a, b = b, a
     return {"a": a, "b": b, "type": draw(st.sampled_from(["str", "int", "float"])),
-            "container": draw(st.sampled_from(["list", "ndarray", "series"]))}
+            "container": draw(st.sampled_from(["list", "ndarray", "series", "categorical", "categorical"]))}
 
 
 SUBS = [
